@@ -199,6 +199,27 @@ def run(cx: Cx):
                          where=cx.where(fn, writes[1].line if len(writes) > 1 else None), path=p.lines())
             continue
         w = writes[0]
+        # the step adds 1 to the clock as it is NOW: systems are open-world code and may themselves have requested steps
+        # (model.execute() from inside execute()), so a value read before they ran is stale by the time it is written back
+        iw = p.events.index(w)
+        if any(is_system_execute_call(cx, e) for e in p.events[:iw]) and w.data.get('store') != 'aug':
+            from sa.terms import subterms_of
+            import ast as _ast
+            v_ = w.data.get('value')
+            first_hook = min(i for i, e in enumerate(p.events[:iw]) if is_system_execute_call(cx, e))
+            rhs = getattr(w.node, 'value', None)
+            names = {y.id for y in _ast.walk(rhs) if isinstance(y, _ast.Name)} if rhs is not None else set()
+            stale_read = False
+            for nm in names:
+                defs = [i for i, e in enumerate(p.events[:iw]) if e.kind == 'assign' and e.data.get('name') == nm]
+                if defs and defs[-1] < first_hook and any(strip_versions(y) == t for y in subterms_of(p.events[defs[-1]].data.get('value'))):
+                    stale_read = True       # a local copy of the clock taken before the systems ran
+            if stale_read:
+                cx.violation('R-DISC', fn.qualname, 'clock-advanced-from-its-current-value',
+                             f"the clock is set to {v_!r}, computed from a value read before this timestep's systems ran: a step that a "
+                             f"system requests from inside execute() is overwritten, so n requests advance the clock by fewer than n",
+                             where=cx.where(fn, w.line), path=p.lines())
+                continue
         if w.loops:
             cx.violation('R-DISC', fn.qualname, 'clock-advanced-outside-loop',
                          "the clock is advanced inside the scheduler loop", where=cx.where(fn, w.line), path=p.lines())
